@@ -95,6 +95,10 @@ def handleVerify (op : String) (a : Json) : Option Json :=
         -- inputs, so every element is simply the verdict for that parameter dictionary
         some (Json.mkObj [("runs", Json.arr ((getArr a "param_list").map fun p => one (toParams p)).toArray),
                           ("inputs_changed", Json.bool false)])
+      else if op == "cliverify" && getBool a "honest" then
+        -- C20: files the tools wrote in an honest, untampered history must be accepted (the verdict the
+        -- model computes for those very files is reported next to this expectation)
+        some ((one params).mergeObj (Json.mkObj [("honest_accepted", Json.bool true)]))
       else some (one params)
     | _ => some (Json.mkObj [("res", "layout-unloadable")])
   | _ => none
